@@ -936,21 +936,27 @@ theorem renameLoop_inv (t : Table) (names : List Name) (must : Bool) :
     intro d d' hi h
     obtain ⟨o, n⟩ := cv
     unfold renameLoop at h
-    split_ifs at h with h1 h2
-    · split at h
+    by_cases h1 : names.contains o = true
+    · rw [if_pos h1] at h
+      split at h
       · rename_i v hv
-        refine ih _ _ ?_ h
-        obtain ⟨hk, ht, hm⟩ := hi
-        have hs := dpop_sublist d o
-        obtain ⟨a1, _⟩ := dpop_tags (fun pv : Prov × Col => pv.1) d o v hk ht hv
-        obtain ⟨b1, b2, b3⟩ := dset_spec (fun pv : Prov × Col => pv.1) (dpop d o) n v (hk.sublist (hs.map _)) (ht.sublist (hs.map _)) a1
-        refine ⟨b1, b2, ?_⟩
-        intro e he
-        rcases b3 e he with h' | rfl
-        · exact hm e (hs.subset h')
-        · exact hm (o, v) (mem_of_lookup _ _ _ hv)
+        split at h
+        · cases h
+        · refine ih _ _ ?_ h
+          obtain ⟨hk, ht, hm⟩ := hi
+          have hs := dpop_sublist d o
+          obtain ⟨a1, _⟩ := dpop_tags (fun pv : Prov × Col => pv.1) d o v hk ht hv
+          obtain ⟨b1, b2, b3⟩ := dset_spec (fun pv : Prov × Col => pv.1) (dpop d o) n v (hk.sublist (hs.map _)) (ht.sublist (hs.map _)) a1
+          refine ⟨b1, b2, ?_⟩
+          intro e he
+          rcases b3 e he with h' | rfl
+          · exact hm e (hs.subset h')
+          · exact hm (o, v) (mem_of_lookup _ _ _ hv)
       · cases h
-    · exact ih _ _ hi h
+    · rw [if_neg h1] at h
+      split at h
+      · cases h
+      · exact ih _ _ hi h
 
 theorem refs_nodup_of_kept : ∀ (d : PCols), (∀ e ∈ d, ∃ o, e.2.1 = .kept o) → (d.map (fun e => e.2.1)).Nodup → (refs d).Nodup := by
   intro d
@@ -1351,22 +1357,28 @@ theorem tableOp_wrefs (get : Nat → Except Err Table) (k : Nat) (op : Op) (tgt 
         intro d d' hd h
         obtain ⟨o, n⟩ := cv
         unfold renameLoop at h
-        split_ifs at h
-        · split at h
+        by_cases h1 : t.keys.contains o = true
+        · rw [if_pos h1] at h
+          split at h
           · rename_i v hv
-            refine ih _ _ ?_ h
-            intro e he
-            unfold dset at he
-            split at he
-            · obtain ⟨p, hp, rfl⟩ := List.mem_map.mp he
-              split
-              · exact hd (o, v) (mem_of_lookup _ _ _ hv)
-              · exact hd p (List.mem_of_mem_filter hp)
-            · rcases List.mem_append.mp he with h1 | h1
-              · exact hd e (List.mem_of_mem_filter h1)
-              · simp at h1; subst h1; exact hd (o, v) (mem_of_lookup _ _ _ hv)
+            split at h
+            · cases h
+            · refine ih _ _ ?_ h
+              intro e he
+              unfold dset at he
+              split at he
+              · obtain ⟨p, hp, rfl⟩ := List.mem_map.mp he
+                split
+                · exact hd (o, v) (mem_of_lookup _ _ _ hv)
+                · exact hd p (List.mem_of_mem_filter hp)
+              · rcases List.mem_append.mp he with h1 | h1
+                · exact hd e (List.mem_of_mem_filter h1)
+                · simp at h1; subst h1; exact hd (o, v) (mem_of_lookup _ _ _ hv)
           · cases h
-        · exact ih _ _ hd h
+        · rw [if_neg h1] at h
+          split at h
+          · cases h
+          · exact ih _ _ hd h
     exact wrefs_nil_of (key cv _ _ (by intro e he; obtain ⟨p, _, rfl⟩ := List.mem_map.mp he; rfl) hc)
   case tidyUp a keep =>
     obtain ⟨t, _, h⟩ := h
